@@ -24,6 +24,10 @@ class Machinery(Exception):
     pass
 
 # ----------------------------------------------------------------------------------------------
+def SB(x):
+    """strict: a result that is to be a byte string must BE bytes (a bytearray / Bits / iterator with the right content is another result)"""
+    return list(x) if isinstance(x, bytes) else [-1, len(x) if hasattr(x, '__len__') else -1]
+
 def B(b):
     """bytes -> JSON array of 0..255"""
     return list(b)
